@@ -20,9 +20,9 @@ def _p(title, kani=None, verus=None, level="model_checking", level_text="", tech
 PROPS = {
     "C02": _p(
         "Slice indexing and splitting functions agree with std slice indexing",
-        kani=["c02"], verus=["c02"], level="proof",
+        kani=["c02"], verus=["c02", "c02m"], level="proof",
         level_text="Verus: slice_from/up_to/range, get, get_from/up_to/range, split_at proved against subrange specs for every slice length and every usize index, "
-                   "with the safety preconditions of ptr::offset/from_raw_parts as obligations. Not yet under Verus (Kani only, bounded in slice length): _mut twins, as_chunks/as_rchunks, try_into_array. Kani: every getter/clamping/_mut/chunk/array-conversion function compared with the real std call by pointer and length, "
+                   "with the safety preconditions of ptr::offset/from_raw_parts as obligations. The `_mut` twins (get_mut, slice_from/up_to/range_mut, get_from/up_to/range_mut, split_at_mut) are proved the same way against relational specs of as_mut_ptr/offset/from_raw_parts_mut (unit c02m; value-level: which elements the returned &mut slice holds). Zero-sized element types and slices up to usize::MAX long are inside the proofs. Not under Verus (Kani only, bounded in slice length): as_chunks/as_rchunks, try_into_array. Kani: every getter/clamping/_mut/chunk/array-conversion function compared with the real std call by pointer and length, "
                    "loop-free in the indices (all of usize), slice length <= 8, element types u16 and ()",
         technique="Kani harnesses vs real std (complete in indices, bounded in slice length); Verus contracts on the expanded functions when present",
     ),
@@ -58,7 +58,7 @@ PROPS = {
         kani=["c08"], verus=["c08"], level="proof",
         level_text="Verus: one-step contracts (next/next_back/rev/copy/remainder, constructors, must-panic on size 0) of Windows, Chunks, RChunks, ChunksExact, RChunksExact, ArrayChunks and their Rev twins "
                    "against std's step functions (restated from core::slice::iter), generic in T, every length and size; induction over steps gives every interleaving. "
-                   "Element iterators (iter/iter_copied) and the as_chunks pointer cast are Kani-only. Kani: lock-step walks against the real core::slice iterators, len <= 6 (thorough 8), u8 and ()",
+                   "The element iterators iter/iter_copied (Iter, IterRev, IterCopied, IterCopiedRev: next/next_back/rev/copy/as_slice) are in the same unit; the as_chunks/array_chunks pointer cast is Kani-only. Kani: lock-step walks against the real core::slice iterators, len <= 6 (thorough 8), u8 and ()",
         technique="Verus one-step contracts on the extracted iterator methods + Kani lock-step bisimulation with the real std iterators (bounded)",
         assumptions=["std's iterator step functions are restated as spec functions; the Kani lock-step harnesses tie them to the real iterators (bounded)"],
     ),
@@ -74,10 +74,10 @@ PROPS = {
     ),
     "C20": _p(
         "Concatenation/join macros and CStr conversions equal their std counterparts",
-        kani=["c20", "c20m"], verus=["c20", "c20b"], level="proof",
+        kani=["c20", "c20m"], verus=["c20", "c20b", "c20s"], level="proof",
         level_text="Verus: from_bytes_until_nul(_inner)/from_bytes_with_nul succeed exactly when a nul exists / the first nul is last and discharge CStr::from_bytes_with_nul_unchecked's precondition; "
-                   "slice concat kernels (concat_sum_lengths, concat_slices) equal <[&[T]]>::concat. String concat/join kernels, CStr->bytes/str pointer walks and constant macro instances: Kani (bounded)",
-        technique="Verus contracts on CStr constructors and slice-concat kernels; Kani bounded harnesses vs real CStr / concat / join",
+                   "slice concat kernels (concat_sum_lengths, concat_slices) equal <[&[T]]>::concat; the str_concat!/str_join! kernels (concat_sum_lengths, concat_strs, join_sum_lengths, join_strs over &[&str] / &[char] pieces and str / char separators, unit c20s) compute the total length and write exactly the concatenation / the join of the pieces' UTF-8 encodings, with the char encoder itself proved (unit c07e). CStr->bytes/str pointer walks and constant macro instances: Kani (bounded)",
+        technique="Verus contracts on CStr constructors, slice-concat and string concat/join kernels; Kani bounded harnesses vs real CStr / concat / join",
         unchecked=["string::from_iter! rides on the iterator DSL (C10, not applicable) and is not covered",
                    "the macro glue (const LEN / const CONC evaluation) is rustc's const evaluation; a few constant instances are smoke-tested by Kani harnesses"],
     ),
@@ -104,8 +104,8 @@ PROPS = {
         "Comparison functions and macros agree with std equality and ordering",
         kani=["c16"], verus=["c16"], level="proof",
         level_text="Verus: eq_str/cmp_str, eq_bytes/cmp_bytes and the typed eq_slice_*/cmp_slice_* (12 integer types, char; eq only for bool) proved equal to sequence equality / lexicographic order "
-                   "(first differing element, then length) for every pair of slices. Kani complete harnesses (loop-free, full domain): cmp_<int> x12, bool, char, Ordering, Option, NonZero x12, ranges, impl_cmp!, "
-                   "const_eq!/const_cmp! dispatch; Kani bounded: nested slices, const_eq_for!/const_cmp_for!, assertc_* (panic side on concrete pairs)",
+                   "(first differing element, then length) for every pair of slices; the nested comparisons eq_slice_str/cmp_slice_str/eq_slice_bytes/cmp_slice_bytes against the two-level lexicographic order (lex_cmp2). Kani complete harnesses (loop-free, full domain): cmp_<int> x12, bool, char, Ordering, Option, NonZero x12, ranges, impl_cmp!, "
+                   "const_eq!/const_cmp! dispatch; Kani bounded: nested slices (also under Verus), const_eq_for!/const_cmp_for!, assertc_* (panic side on concrete pairs)",
         technique="Verus loop invariants against a lexicographic spec (common-prefix length) + Kani complete harnesses for scalars/Option/NonZero/ranges + bounded harnesses for nested slices and macros",
         assumptions=["lex_cmp (first differing element decides, then length) is <[T] as Ord>::cmp (Kani SPEC harnesses c16_spec_* against the real std, bounded)",
                      "Kani 0.68 mis-encodes < and > on symbolic bool operands: bool inputs are enumerated concretely"],
@@ -114,12 +114,12 @@ PROPS = {
     ),
     "C07": _p(
         "Char iteration and char<->UTF-8/u32 conversions agree with std",
-        kani=["c07"], verus=["c07"], level="proof",
+        kani=["c07"], verus=["c07", "c07e"], level="proof",
         level_text="Kani function contracts (proof_for_contract, full domain): chr::from_u32 == char::from_u32 for every u32, chr::encode_utf8 == char::encode_utf8 for every char; complete harness: decode(encode(c)) == c through all four char iterators for every char. "
-                   "Verus: __find_next/prev_char_boundary and one-step contracts of Chars/RChars/CharIndices/RCharIndices next/next_back (remaining string, byte offsets, split on char boundaries) for every valid string; "
+                   "Verus (unit c07e): encode_utf8 writes the standard encoding (Unicode Table 3-6 in div/mod form, bit-vector lemmas) which is well-formed (Table 3-7), so Utf8Encoded::as_str's from_utf8_unchecked is allowed; the decoder string_to_usv/string_to_char returns, for every single well-formed sequence, the scalar value whose encoding is that sequence (so the transmute to char is allowed); from_u32 succeeds exactly on scalar values. Verus (unit c07): __find_next/prev_char_boundary and one-step contracts of Chars/RChars/CharIndices/RCharIndices next/next_back (remaining string, byte offsets, split on char boundaries) for every valid string; "
                    "Kani bounded: lock-step with core::str::Chars/CharIndices, strings <= 5 bytes, 4 symbolic front/back steps",
         technique="Kani function contracts + complete harnesses (all chars / all u32) for conversions; Verus one-step contracts for iteration; bounded Kani lock-step vs real std iterators",
-        assumptions=["in the Verus unit the decoder string_to_char is an uninterpreted function of the character's bytes; the complete Kani harness c07_decode_encode_id proves it inverts encode_utf8 for every char"],
+        assumptions=["char_bytes (Table 3-6 in arithmetic form) is char::encode_utf8: tied to the real std for every char by the Kani contract harness on encode_utf8 (complete)", "from_u32_unchecked (transmute) is assumed with its safety contract"],
     ),
     "C09": _p(
         "Range iteration yields exactly the values std ranges yield",
@@ -136,9 +136,9 @@ PROPS = {
         kani=["c13"], verus=["c13"], level="proof",
         level_text="Verus: every Parser operation (new/with_start_offset, trim*, trim_*matches, strip_prefix/suffix, find_skip/rfind_skip, skip/skip_back, split/rsplit/split_terminator/rsplit_terminator/split_keep, "
                    "parse_<int> x12, parse_bool) satisfies the one-step relational invariant `narrowed`: the new remainder is the old remainder cut to [a,b), start_offset moved by exactly a, a and b char boundaries; "
-                   "errors carry the start (from-start ops) or end (from-end ops) offset and the matching direction. Induction over operation sequences gives the statement for every history. "
+                   "errors carry the start (from-start ops) or end (from-end ops) offset and the matching direction, and ParseError::offset/error_direction/kind report them. The induction over operation sequences is machine-checked: every operation's contract implies `parser_step`, and lemma_anchored_history proves that along ANY sequence of steps from Parser::new/with_start_offset the remainder is original[start_offset-base .. end_offset-base] with both ends on char boundaries of the original. "
                    "Kani: the same invariant by pointer arithmetic from an arbitrary base offset, strings <= 5-6 bytes",
-        technique="Verus one-step relational contracts (ghost-free induction over histories) on the extracted Parser methods + Kani bounded pointer-offset harnesses",
+        technique="Verus one-step relational contracts on the extracted Parser methods + a proved induction lemma over histories + Kani bounded pointer-offset harnesses",
         assumptions=["Parser offsets are u32: start_offset + remainder length <= u32::MAX is a precondition of every method (parser_inv)",
                      "patterns are abstract (L5): pattern_bytes(p) is the valid UTF-8 encoding of the pattern"],
     ),
@@ -147,15 +147,15 @@ PROPS = {
         kani=["c14"], verus=["c13"], level="proof",
         level_text="Verus: each Parser operation's postcondition states the remainder in the vocabulary of the string functions it mirrors (is_prefix/is_suffix, ws_start/ws_end/trim_ws, reps_start/reps_end/trim_reps, "
                    "first/last occurrence, digit-run parse) and succeeds exactly when that function finds something; the split protocol is a state machine over yielded_last_split "
-                   "(piece before the first delimiter and flag cleared / whole remainder and flag set / SplitExhausted), from which the sequence of pieces follows by induction. Kani: one-step equivalence with the free functions and whole split sequences, bounded",
+                   "(piece before the first delimiter and flag cleared / whole remainder and flag set / SplitExhausted); lemma_split_protocol / lemma_rsplit_protocol prove by induction that ANY run of successful split (rsplit) calls yields a prefix of str::split's (str::rsplit's) sequence and that the flag is set exactly when the whole sequence has been yielded. Kani: one-step equivalence with the free functions and whole split sequences, bounded",
         technique="Verus one-step contracts tying Parser methods to the string-function specs + Kani bounded equivalence and split-protocol harnesses",
-        assumptions=["the induction from the one-step split contract to `the sequence of pieces is str::split's` is written in DESIGN.md, not machine-checked; Kani checks whole sequences for bounded strings"],
+        assumptions=["split_seq / rsplit_seq (piece before the first / after the last occurrence, then recursively) are str::split / str::rsplit for a non-empty pattern; Kani checks whole sequences against the real std for bounded strings", "term_seq / rterm_seq (each piece followed / preceded by a delimiter) state the terminator protocols; lemma_term_protocol / lemma_rterm_protocol are the proved inductions, lemma_term_seq_empty ties exhaustion to the Err branch of the contract"],
     ),
     "C01": dict(_p(
         "Safe API never triggers UB; results stay inside the input and are valid UTF-8",
-        kani=["c01", "c02", "c07", "c11", "c15", "c20"], verus=["c04s", "c05s", "c20", "c07"], level="proof",
+        kani=["c01", "c02", "c07", "c11", "c15", "c20"], verus=["c04s", "c05s", "c20", "c07", "c02m", "c20s"], level="proof",
         level_text="Every `unsafe` token of konst/konst_kernel is inventoried on each run (66 today) and mapped to the contract unit or harness that carries its safety obligation (contracts/C01.sites.json, copied into the evidence). "
-                   "Verus (unbounded): preconditions of ptr::offset / slice::from_raw_parts (results inside the argument's allocation) for the shared slice kernel; precondition of from_utf8_unchecked at all 20 string sites "
+                   "Verus (unbounded): preconditions of ptr::offset / slice::from_raw_parts(_mut) (results inside the argument's allocation) for the shared slice kernel and its `_mut` twins; the encoder/decoder pair behind Utf8Encoded::as_str and string_to_char (from_utf8_unchecked / transmute to char); precondition of from_utf8_unchecked at all 20 string sites "
                    "via the proved cut / match-cut / ascii-prefix / repetition lemmas, with postconditions `result bytes == sub-range of the argument` on char boundaries; CStr::from_bytes_with_nul_unchecked's precondition. "
                    "Kani complete: char transmutes and from_u32_unchecked (all u32 / all chars), ManuallyDrop/MaybeUninit/NonNull casts. Kani bounded: _mut slice variants, as_chunks, try_into_array, MaybeUninit arrays, "
                    "ArrayBuilder/ArrayConsumer, destructure!, the CStr pointer walk",
@@ -181,10 +181,10 @@ PROPS = {
         kani=["c06"], verus=["c06"], level="proof",
         level_text="Verus: one-step contracts of Split/RSplit (next, next_back, rev, copy, remainder, both empty-delimiter states) and SplitTerminator/RSplitTerminator (next, remainder), constructors: "
                    "each step yields the piece before the first (after the last) delimiter and continues on the rest, the last piece is the whole remainder, an exhausted remainder ends a terminator iteration, "
-                   "an empty delimiter yields one character per step; the remainder accessor is the not-yet-split part; induction over steps gives std's sequences. "
+                   "an empty delimiter yields one character per step; the remainder accessor is the not-yet-split part; lemma_split_steps / lemma_rsplit_steps prove by induction that any run of forward (backward) steps yields a prefix of str::split's (str::rsplit's) sequence and finishes exactly at its end. "
                    "Kani: whole iterations step by step against a reference split sequence (tied to str::split with char/closure patterns), strings <= 4 bytes",
         technique="Verus one-step contracts on the extracted iterator methods (typewit pattern abstracted, L5) + Kani bounded whole-sequence harnesses",
-        assumptions=["the induction from the one-step contracts to `same sequence as str::split` is an argument in DESIGN.md; Kani checks whole sequences for bounded strings",
+        assumptions=["split_seq / rsplit_seq are str::split / str::rsplit for a non-empty pattern (Kani checks whole sequences against the real std for bounded strings); the terminator iterators have their own proved inductions (lemma_tsplit_steps / lemma_rtsplit_steps) and lemma_tsplit_seq / lemma_rtsplit_seq prove that their sequences are the split / rsplit sequences minus a trailing empty piece (the std definition of split_terminator and the documented mirrored rule); the empty-delimiter sequences are one-step contracts only",
                      "std's &str searcher (Two-Way) is too heavy for CBMC: the reference is tied to std through char and closure patterns"],
         unchecked=["mixing next and next_back on one Split with an empty delimiter (the statement only speaks of reversal)"],
     ),
